@@ -53,7 +53,20 @@ type c04case struct {
 	segSeed uint64
 	ordSeed int
 	indom   bool // generated inside the property's quantifier
+	// faultMove = k+1: the device withholds its prompt once, after its k-th mode change (0 = never):
+	// the escalate / de-escalate command HAS been executed, the client's read times out
+	faultMove int
 }
+
+// the sentinel the driver resets CurrentPriv to, as the source says now
+var c04unknown = func() string {
+	facts.Repo = repoDir()
+	consts, _ := facts.PkgConsts("driver/network")
+	if v, ok := consts["unknownPriv"]; ok && v.IsStr {
+		return v.S
+	}
+	return "UNKNOWN"
+}()
 
 // c04cfgLevel is the level SendConfigs falls back to, as the source says now
 // (driver/network: defaultConfigurationPrivLevel), read from the tree the harness was built against.
@@ -484,6 +497,50 @@ func c04sibling(seed uint64, k, hops int) c04case {
 	return cs
 }
 
+// c04fault: an in-domain session (random tree or the IOS tree, distinguishing prompts) in which the
+// device withholds its prompt once, after its k-th mode change: the escalate / de-escalate command
+// of some step of some operation's acquisition HAS been executed, the client's read times out
+// (TimeoutOps 250 ms), the operation fails; the prompt comes with the reaction to the next line and
+// further operations follow. k ranges over every step position of every acquisition of the session
+// (SendCommand(s) with implicit acquire, SendConfig(s), SendInteractive, AcquirePriv).
+func c04fault(seed uint64, maxN, maxOps, k int) c04case {
+	var cs c04case
+	if seed%3 == 0 {
+		cs = c04ios(seed, maxOps)
+	} else {
+		cs = c04random(seed, maxN, maxOps, "rand")
+	}
+	r := vlib.NewRng(seed ^ 0x5fa17)
+	lv := func() string { return cs.levels[r.Intn(len(cs.levels))].name }
+	// operations after the failed one: commands must still run at the default level, configs at theirs
+	cs.ops = append(cs.ops, c04op{kind: "cfgs", priv: lv(), lines: []string{r.Pick(c04payload)}},
+		c04op{kind: "cmd", arg: r.Pick(c04payload)},
+		c04op{kind: "int", priv: lv(), lines: []string{r.Pick(c04payload)}},
+		c04op{kind: "cmds", lines: []string{r.Pick(c04payload), r.Pick(c04payload)}},
+		c04op{kind: "acq", arg: lv()},
+		c04op{kind: "cmd", arg: r.Pick(c04payload)})
+	cs.kind = "fault"
+	cs.faultMove = k + 1
+	cs.line = fmt.Sprintf("c04case fault %d %d %d %d", seed, maxN, maxOps, k)
+	return cs
+}
+
+// c04faultCases: the session of a seed with the fault at up to `cap` step positions spread over
+// all its mode changes.
+func c04faultCases(seed uint64, maxN, maxOps, cap int) []c04case {
+	base := c04fault(seed, maxN, maxOps, -1)
+	m := c04expected(base).moves
+	var out []c04case
+	step := 1
+	if m > cap {
+		step = (m + cap - 1) / cap
+	}
+	for k := int(seed % uint64(step)); k < m; k += step {
+		out = append(out, c04fault(seed, maxN, maxOps, k))
+	}
+	return out
+}
+
 func c04min(a, b int) int {
 	if a < b {
 		return a
@@ -540,6 +597,11 @@ func c04device(cs c04case) *sim.PrivDev {
 
 func runC04case(cs c04case) (o c04obs) {
 	dev := c04device(cs)
+	timeout := 2 * time.Second
+	if cs.faultMove > 0 {
+		dev.WithholdMove = cs.faultMove - 1
+		timeout = 250 * time.Millisecond
+	}
 	dev.Start()
 	defer func() {
 		if r := recover(); r != nil {
@@ -548,7 +610,7 @@ func runC04case(cs c04case) (o c04obs) {
 	}()
 	d, err := network.NewDriver("h", options.WithCustomTransport(dev), options.WithAuthBypass(),
 		options.WithPrivilegeLevels(c04privLevels(cs)), options.WithDefaultDesiredPriv(cs.def),
-		options.WithAuthSecondary(cs.secret), options.WithTimeoutOps(2*time.Second),
+		options.WithAuthSecondary(cs.secret), options.WithTimeoutOps(timeout),
 		options.WithReadDelay(50*time.Microsecond))
 	if err != nil {
 		o.fatal = "new:" + err.Error()
@@ -558,6 +620,7 @@ func runC04case(cs c04case) (o c04obs) {
 		o.fatal = "open:" + errClass(err)
 		return o
 	}
+	timeouts := 0
 	for _, op := range cs.ops {
 		var opts []util.Option
 		if op.priv != "" {
@@ -587,6 +650,9 @@ func runC04case(cs c04case) (o c04obs) {
 		o.caches = append(o.caches, d.CurrentPriv)
 		o.ran++
 		if ec := c04errClass(err); ec == "timeout" || ec == "connection" {
+			timeouts++
+		}
+		if (cs.faultMove == 0 && timeouts > 0) || timeouts > 2 {
 			break // the session is out of step; further operations would only wait for timeouts
 		}
 	}
@@ -600,9 +666,13 @@ func runC04case(cs c04case) (o c04obs) {
 // the property's demand, computed in Go without search and without the driver
 
 type c04spec struct {
-	errs  []string
-	modes []string
-	log   []sim.LineEvent
+	errs      []string
+	modes     []string
+	caches    []string // fault sessions: what CurrentPriv must be at each operation boundary
+	log       []sim.LineEvent
+	moves     int // mode changes the device made
+	faultTick int // loop iteration (over the session) in which the faulted step was issued
+	faultOp   int // operation hit by the fault (-1 none)
 }
 
 func c04find(cs c04case, name string) *c04lvl {
@@ -677,19 +747,24 @@ func c04opLines(op c04op) []string {
 
 func c04expected(cs c04case) c04spec {
 	var sp c04spec
+	sp.faultOp = -1
+	probes := 0
 	mode, cache := cs.start, ""
-	for _, op := range cs.ops {
+ops:
+	for k, op := range cs.ops {
 		lvl := c04opLevel(cs, op)
 		skip := (op.kind == "cmd" || op.kind == "cmds") && cache == cs.def
 		if !skip && c04find(cs, lvl) == nil {
 			sp.errs = append(sp.errs, "privilege")
 			sp.modes = append(sp.modes, mode)
+			sp.caches = append(sp.caches, cache)
 			continue
 		}
 		if !skip {
 			p := c04treePath(cs, mode, lvl)
 			for i, x := range p {
 				sp.log = append(sp.log, sim.LineEvent{Mode: x, Line: ""})
+				probes++
 				if i+1 < len(p) {
 					y := p[i+1]
 					if c04find(cs, x).prev == y {
@@ -699,6 +774,21 @@ func c04expected(cs c04case) c04spec {
 						if c04find(cs, y).asks {
 							sp.log = append(sp.log, sim.LineEvent{Mode: x, Line: cs.secret})
 						}
+					}
+					sp.moves++
+					if sp.moves == cs.faultMove {
+						// the device is in y now, but the step fails (prompt withheld): the operation
+						// returns the error, sends nothing more, and the cache must not name a level
+						e := "timeout"
+						if op.kind == "cmd" || op.kind == "cmds" {
+							e = "privilege" // SendCommand(s) wrap the acquisition error
+						}
+						sp.errs = append(sp.errs, e)
+						sp.modes = append(sp.modes, y)
+						sp.caches = append(sp.caches, c04unknown)
+						sp.faultTick, sp.faultOp = probes-1, k
+						mode, cache = y, c04unknown
+						continue ops
 					}
 				}
 			}
@@ -713,7 +803,14 @@ func c04expected(cs c04case) c04spec {
 		}
 		sp.errs = append(sp.errs, e)
 		sp.modes = append(sp.modes, lvl)
-		mode, cache = lvl, lvl
+		if skip {
+			sp.caches = append(sp.caches, cache)
+		} else {
+			sp.caches = append(sp.caches, lvl)
+		}
+		if !skip {
+			mode, cache = lvl, lvl
+		}
 	}
 	return sp
 }
@@ -833,6 +930,13 @@ func c04opsField(ops []c04op) string {
 	return strings.Join(fs, ",")
 }
 
+// c04requestF: the fault-aware model (reset before send), fault in the loop iteration the Go
+// specification computed for the faulted step
+func c04requestF(cs c04case, faultTick int) string {
+	return strings.Join([]string{"c04", "fsess", c04levelsField(cs), c04hexS(cs.def), c04hexS(cs.secret), c04hexS(cs.start),
+		strconv.Itoa(cs.ordSeed), c04opsField(cs.ops), strconv.Itoa(faultTick), "1"}, " ")
+}
+
 func c04request(cs c04case) string {
 	return strings.Join([]string{"c04", "sess", c04levelsField(cs), c04hexS(cs.def), c04hexS(cs.secret), c04hexS(cs.start),
 		strconv.Itoa(cs.ordSeed), c04opsField(cs.ops)}, " ")
@@ -931,6 +1035,9 @@ func runC04(c *ctx) {
 	for i := c.n(120, 1500); i > 0; i-- {
 		cases = append(cases, c04sibling(c.rng.U64(), 2+i%2, 20+i%9))
 	}
+	for i := c.n(40, 400); i > 0; i-- {
+		cases = append(cases, c04faultCases(c.rng.U64(), 6, 5, 8)...)
+	}
 	c04check(c, cases)
 }
 
@@ -945,10 +1052,16 @@ func c04replay(line string) (c04case, bool) {
 			return c04case{}, false
 		}
 		return c04enum(n, t, v, trees), true
+	case len(f) == 6 && f[0] == "c04case" && f[1] == "fault":
+		seed, _ := strconv.ParseUint(f[2], 10, 64)
+		return c04fault(seed, atoi(f[3]), atoi(f[4]), atoi(f[5])), true
 	case len(f) == 5 && f[0] == "c04case":
 		seed, _ := strconv.ParseUint(f[2], 10, 64)
 		if f[1] == "ios" {
 			return c04ios(seed, atoi(f[4])), true
+		}
+		if f[1] == "fault" {
+			return c04case{}, false // needs the step index: six fields
 		}
 		if f[1] == "sibling" {
 			if k := atoi(f[3]); k < 2 || k > 3 {
@@ -978,12 +1091,20 @@ func c04check(c *ctx, cases []c04case) {
 	wg.Wait()
 	lines := make([]string, len(cases))
 	for i, cs := range cases {
-		lines[i] = c04request(cs)
+		if cs.kind == "fault" {
+			lines[i] = c04requestF(cs, c04expected(cs).faultTick)
+		} else {
+			lines[i] = c04request(cs)
+		}
 	}
 	ans := c.ask(lines)
 	for i, cs := range cases {
 		o := obs[i]
 		f := strings.Fields(ans[i])
+		if cs.kind == "fault" {
+			c04checkFault(c, cs, o, f, lines[i], i)
+			continue
+		}
 		if len(f) != 8 {
 			res.Fail("machinery", cs.line, "driver answered "+ans[i]+" for "+lines[i], "driver")
 			continue
@@ -1092,4 +1213,90 @@ func c04check(c *ctx, cases []c04case) {
 		}
 	}
 	res.TracesVsImpl += len(cases)
+}
+
+// c04checkFault: a session with one navigation step that fails after the device moved.
+func c04checkFault(c *ctx, cs c04case, o c04obs, f []string, req string, idx int) {
+	res := c.res
+	if len(f) != 5 {
+		res.Fail("machinery", cs.line, "driver answered "+strings.Join(f, " ")+" for "+req, "driver")
+		return
+	}
+	sp := c04expected(cs)
+	res.Count("kind:fault")
+	res.Count(fmt.Sprintf("levels:%d", len(cs.levels)))
+	if sp.faultOp >= 0 {
+		res.Count("fault-in:" + cs.ops[sp.faultOp].kind)
+	} else {
+		res.Count("fault-in:none")
+	}
+	res.Case(cs.line, sp.faultOp >= 0)
+	if idx%53 == 0 {
+		res.Sample(map[string]any{"case": cs.line, "kind": cs.kind, "levels": len(cs.levels), "fault_in_op": sp.faultOp, "ops": len(cs.ops), "device_log": c04pretty(o.log)})
+	}
+	if f[0] != "1" {
+		res.Fail("machinery", cs.line, "fault session outside the theorem's hypotheses", "domain-mismatch")
+		return
+	}
+	res.InDomain++
+	isTransition := func(line string) bool {
+		if line == "" || (cs.secret != "" && line == cs.secret) {
+			return true
+		}
+		for _, l := range cs.levels {
+			if l.prev != "" && (line == l.esc || line == l.deesc) {
+				return true
+			}
+		}
+		return false
+	}
+	// oracle on the implementation
+	if o.fatal != "" {
+		res.Fail("oracle", cs.line, "session could not run: "+o.fatal, "fatal:"+strings.SplitN(o.fatal, ":", 2)[0])
+		return
+	}
+	for k, op := range cs.ops {
+		if k >= len(o.errs) {
+			res.Fail("oracle", cs.line, fmt.Sprintf("operation %d (%s) never ran: too many operations timed out", k, op.kind), "fault:error:timeout-cascade")
+			return
+		}
+		// cache coherence at every operation boundary: CurrentPriv names no level, or the device's
+		if c04find(cs, o.caches[k]) != nil && o.caches[k] != o.modes[k] {
+			res.Fail("oracle", cs.line, fmt.Sprintf("after operation %d (%s, returned %s) CurrentPriv is %q but the device is in %q (step %d of the session withheld its prompt); device log [%s]",
+				k, op.kind, o.errs[k], o.caches[k], o.modes[k], cs.faultMove-1, c04pretty(o.log)), "cache-stale-after-failed-step")
+			return
+		}
+		if o.errs[k] != sp.errs[k] {
+			res.Fail("oracle", cs.line, fmt.Sprintf("operation %d (%s) returned error class %s, expected %s; device log [%s]", k, op.kind, o.errs[k], sp.errs[k], c04pretty(o.log)),
+				"fault:error:"+o.errs[k]+"-want-"+sp.errs[k])
+			return
+		}
+		if o.modes[k] != sp.modes[k] {
+			res.Fail("oracle", cs.line, fmt.Sprintf("after operation %d (%s) the device is in %q, expected %q; device log [%s]", k, op.kind, o.modes[k], sp.modes[k], c04pretty(o.log)), "wrong-final-mode")
+			return
+		}
+	}
+	// every command / config line executes at the level its operation demands
+	if c04logStr(o.log) != c04logStr(sp.log) {
+		sig := "wrong-device-log"
+		for j := 0; j < len(o.log); j++ {
+			if j >= len(sp.log) || o.log[j] != sp.log[j] {
+				if !isTransition(o.log[j].Line) {
+					sig = "payload-at-wrong-level"
+				}
+				break
+			}
+		}
+		res.Fail("oracle", cs.line, fmt.Sprintf("device received [%s], expected [%s]", c04pretty(o.log), c04pretty(sp.log)), sig)
+		return
+	}
+	// machinery: Go specification vs Lean fault-aware model
+	if c04errsStr(sp.errs) != f[1] || c04modesStr(sp.modes) != f[2] || c04logStr(sp.log) != f[3] || c04modesStr(sp.caches) != f[4] {
+		res.Fail("machinery", cs.line, fmt.Sprintf("Go oracle and Lean fault model disagree: go %s %s %s [%s] ; lean %s %s %s %s", c04errsStr(sp.errs), c04modesStr(sp.modes), c04modesStr(sp.caches), c04pretty(sp.log), f[1], f[2], f[4], f[3]), "spec-vs-model-fault")
+		return
+	}
+	// correspondence
+	if c04errsStr(o.errs) != f[1] || c04modesStr(o.modes) != f[2] || c04logStr(o.log) != f[3] || c04modesStr(o.caches) != f[4] {
+		res.Fail("correspondence", cs.line, fmt.Sprintf("impl errs %s modes %s caches %s ; model errs %s modes %s caches %s", c04errsStr(o.errs), c04modesStr(o.modes), c04modesStr(o.caches), f[1], f[2], f[4]), "impl-vs-model-fault")
+	}
 }
